@@ -8,7 +8,7 @@
    index-level closed forms to the code. *)
 From Coq Require Import Reals List.
 From Coquelicot Require Import Complex.
-From QV Require Import Base.Mat Base.Zi C01.Model C01.ProofsMat C04.ChannelSpec C04.LiftTP.
+From QV Require Import Base.Mat Base.Zi C01.Model C01.ProofsMat C04.ChannelSpec C04.LiftTP C04.LiftFast.
 Import ListNotations.
 Local Open Scope R_scope.
 
@@ -141,3 +141,53 @@ Theorem apply_kraus_preserves_hermiticity : forall n w0 ts rho, wf_mat n rho ->
   hermitian Ziops zi_conj n rho -> hermitian Ziops zi_conj n (apply_kraus n w0 ts rho).
 Proof. exact z_apply_kraus_hermitian. Qed.
 Print Assumptions apply_kraus_preserves_hermiticity.
+
+(* ==================================================================== Part 3: the closed forms, every n *)
+(* the documented closed forms (the formulas of the fast paths) are Kraus maps with matrix-unit operators,
+   for every register size and every duplicate-free in-range target list (any order) *)
+Theorem reset_closed_form_is_kraus_map : forall n q w w0 w1 rho, q < n -> wf_mat n rho ->
+  reset_closed n q w w0 w1 rho = apply_kraus n w (zuterms (reset_wt w0 w1) [q]) rho.
+Proof. exact reset_closed_is_kraus_map. Qed.
+Print Assumptions reset_closed_form_is_kraus_map.
+
+Theorem depolarizing_closed_form_is_kraus_map : forall n qs w wl rho,
+  NoDup qs -> (forall q, In q qs -> q < n) -> wf_mat n rho ->
+  depol_closed n qs w wl rho = apply_kraus n w (zuterms (fun _ _ => wl) qs) rho.
+Proof. exact depol_closed_is_kraus_map. Qed.
+Print Assumptions depolarizing_closed_form_is_kraus_map.
+
+(* trace: weights w = D(1-p0-p1), w0 = D p0, w1 = D p1 give D tr(rho);  w = D(1-lam), wl = D lam / 2^k likewise *)
+Theorem reset_closed_form_trace : forall n q w w0 w1 rho, q < n -> wf_mat n rho ->
+  ztr n (reset_closed n q w w0 w1 rho) = zi_mul (zw (w + (w0 + w1))) (ztr n rho).
+Proof. exact reset_closed_trace. Qed.
+Print Assumptions reset_closed_form_trace.
+
+Theorem depolarizing_closed_form_trace : forall n qs w wl rho,
+  NoDup qs -> (forall q, In q qs -> q < n) -> wf_mat n rho ->
+  ztr n (depol_closed n qs w wl rho)
+  = zi_mul (zi_add (zw w) (tsum Ziops (map (fun _ => zw wl) (allbits (length qs))))) (ztr n rho).
+Proof. exact depol_closed_trace. Qed.
+Print Assumptions depolarizing_closed_form_trace.
+
+(* complete positivity of the closed forms (Gram form preserved; n arbitrary = every extended register) *)
+Theorem reset_closed_form_preserves_gram_form : forall n q w w0 w1 l, q < n ->
+  reset_closed n q w w0 w1 (gram Ziops zi_conj n l)
+  = gram Ziops zi_conj n (gram_out Ziops n (zw w) (map zlift (zuterms (reset_wt w0 w1) [q])) l).
+Proof. exact reset_closed_preserves_gram_form. Qed.
+Print Assumptions reset_closed_form_preserves_gram_form.
+
+Theorem depolarizing_closed_form_preserves_gram_form : forall n qs w wl l,
+  NoDup qs -> (forall q, In q qs -> q < n) ->
+  depol_closed n qs w wl (gram Ziops zi_conj n l)
+  = gram Ziops zi_conj n (gram_out Ziops n (zw w) (map zlift (zuterms (fun _ _ => wl) qs)) l).
+Proof. exact depol_closed_preserves_gram_form. Qed.
+Print Assumptions depolarizing_closed_form_preserves_gram_form.
+
+(* ReadoutErrorChannel on k qubits (operators sqrt(P[b][a]) |a><b|, integer weights wt a b = D P[b][a]):
+   sum_ab wt(a,b) |a><b|^dagger |a><b| = D I whenever every row of P sums to one -- every k *)
+Theorem readout_error_kraus_set_is_trace_preserving : forall qs wt D,
+  (forall b, length b = length qs -> zcolsum (length qs) wt b = D) ->
+  tp_small Ziops zi_conj (length qs) (zw 0) (map zlift (zuterms wt qs))
+  = mscale Ziops (zi_add (zw 0) D) (eye Ziops (2 ^ length qs)).
+Proof. exact readout_kraus_tp. Qed.
+Print Assumptions readout_error_kraus_set_is_trace_preserving.
